@@ -29,7 +29,7 @@ Proof.
     destruct ((a =? 0)%N || (a =? 10)%N && has flg REG_NEWLINE); [discriminate|].
     destruct (Nat.leb (p + re_uclen_at line p) (length line)) eqn:L; [|discriminate]. inversion H; subst. apply Nat.leb_le in L. lia.
   - destruct (re_ucdec line p); cbn [bind] in H; try discriminate.
-    destruct ((a =? 0)%N || (a =? 10)%N && has flg REG_NEWLINE && (nthb s 1 =? 94)%N); [discriminate|].
+    destruct ((a =? 0)%N || (a =? 10)%N && has flg REG_NEWLINE); [discriminate|].
     destruct (rdk SOther line p); cbn [bind] in H; try discriminate.
     destruct (negb (Nat.leb (p + re_uclen_at line p) (length line))) eqn:L; [discriminate|].
     destruct (brk_match 2 (has flg REG_ICASE) (tl s) a); cbn [bind] in H; try discriminate.
